@@ -219,8 +219,9 @@ static inline int readline_putchar(struct readline *rl, char c)
             break;
 
         default:
-            sline_putchar(&rl->line, c);
-            retcode = READLINE_ECHOCHAR;
+            // a full line refuses the character: nothing to echo then
+            retcode = sline_putchar(&rl->line, c) ? READLINE_ECHOCHAR
+                                                  : READLINE_NOTHING;
             break;
         }
         break;
